@@ -3,7 +3,7 @@ from harness.common import Harness, Cls, IntRange, Enum, hole_args, text_of, rea
 from harness import docs, c01
 from oracle.content import content, first_difference
 
-THOROUGH_STRIDE = 4      # the registered thorough tier runs every 4th instance of the full cross product (vp_check.py --tier full runs all)
+THOROUGH_STRIDE = 8      # the registered thorough tier runs every 8th instance of each family of the full cross product (vp_check.py --tier full runs all)
 
 ASSUMPTIONS = [
     'databases are (a) the parsed results of the C01 scenario documents and (b) API-built models over the DBML-expressible value '
